@@ -1,4 +1,5 @@
 import TsVerif.C20.Judge
+import TsVerif.C20.Roundtrip
 /-!
 # C20 — property theorems
 
@@ -13,31 +14,23 @@ Clause map (model = `TsVerif/C20/Model.lean`, tied to crates/cli/src/test.rs by 
 * "names, attributes, order and input unchanged"  → `update_preserves` is FALSE for the faithful
   model (witnesses `update_drops_skip`, `update_drops_other_platform`, `update_duplicates_per_language`);
   proved: `updateEntries_keys` / `update_preserves_partial` (entries that are run exactly once).
-* "reading never loses bytes"                       → `splitIncl_flatten`.
+* "reading a file and writing it back never merges, splits or drops tests, whatever delimiter lengths
+  and suffixes" → `parse_write_roundtrip_partial` (all lists of `Simple` corrections, all delimiter
+  lengths ≥ 3, all admissible suffixes); the full statement is FALSE (witnesses
+  `roundtrip_fails_delimiter_in_input`, `roundtrip_fails_untrimmed_name`) and OPEN for attribute text /
+  multi-line names; `update_preserves_simple` composes both results without a round-trip hypothesis.
+* "reading never loses bytes"                       → `splitIncl_flatten` (Roundtrip.lean).
+* "a second update leaves the file byte-identical"  → OPEN (`update_idempotent`), judged on every real file;
+  depends on `format_normalize` (OPEN, judged on every S-expression the runtime printed for an
+  error-free tree) — FALSE for trees with two quoted tokens (finding C20-format-sexp-quote-state,
+  witness `format_sexp_quote_state`).
+* "every updated test whose parse is error-free passes afterwards" → judged only (needs `format_normalize`).
 -/
 namespace TsVerif.C20
-
-/-- The part of a correction that is not an expected output. -/
-def Correction.skey (c : Correction) : Str × Str × Str := (c.name, c.attrsStr, c.input)
-def Entry.skey (e : Entry) : Str × Str × Str := (e.name, e.attrsStr, e.input)
 
 /-- An entry that `run_tests` processes exactly once: not skipped, for this platform, one language. -/
 def RunOnce (e : Entry) : Prop :=
   e.attrs.expect ≠ .skip ∧ e.attrs.platform = true ∧ ∃ l, e.attrs.languages = [l]
-
-/-! ## reading never loses bytes -/
-
-/-- `split_inclusive` only cuts: the lines concatenate back to the content. -/
-theorem splitIncl_flatten (s : Str) : (splitIncl s).flatten = s := by
-  induction s with
-  | nil => rfl
-  | cons c cs ih =>
-    unfold splitIncl
-    split
-    · next h => simp [ih, eq_of_beq h]
-    · split
-      · next h => rw [h] at ih; simp at ih; simp [← ih]
-      · next l ls h => rw [h] at ih; simp at ih; simp [← ih]
 
 /-! ## the update keeps names, attribute text, inputs and order -/
 
@@ -203,6 +196,75 @@ theorem update_preserves_partial (os : Str) (orc : Oracle) (f : Str) (cs : List 
     simp only [hrun]
     unfold RoundTrips at hrt
     simp [hrt, hk]
+
+/-! ## reading back what was written -/
+
+/-
+OPEN (full strength; FALSE as stated, see the witnesses at the end of this section):
+theorem parse_write_roundtrip (os : Str) (f : Str) :
+    (parseFile os (writeTests [] ((parseFile os f).map fun e => e.corr e.output))).map Entry.key = (parseFile os f).map Entry.key
+-/
+
+/-- `parse_write_roundtrip_partial`: for EVERY list of `Simple` corrections (delimiter lengths ≥ 3; a
+one-line name that is not blank, not a marker and not `===…`; no attribute text; no line of the input
+or of the expectation starting with `===`/`---`; input not ending in CR) and every admissible
+suffix, the reader applied to the written file returns exactly one entry per correction, in order,
+with the same name, attribute text and input: nothing merges, splits or is dropped.
+Missing w.r.t. the full statement: attribute text, multi-line names (OPEN), and delimiter-like
+lines inside inputs/expectations (FALSE there, witness below). -/
+theorem parse_write_roundtrip_partial (os suf : Str) (hse : SufOK '=' suf) (hsd : SufOK '-' suf)
+    (cs : List Correction) (h : ∀ c ∈ cs, Simple c) : RoundTrips os suf cs :=
+  roundtrip_simple os suf hse hsd cs h
+
+/-- `update_preserves_simple` (unchanged code, no round-trip hypothesis): if every test of the file is run
+exactly once and the corrections the run produces are `Simple`, then after the update the file
+reads back with the same names, attribute texts, inputs, in the same order. -/
+theorem update_preserves_simple (os : Str) (orc : Oracle) (f : Str) (cs : List Correction)
+    (hne : parseFile os f ≠ [])
+    (hp : ∀ e ∈ parseFile os f, RunOnce e)
+    (hrun : updateEntries {} orc (parseFile os f) [] = some cs)
+    (hs : ∀ c ∈ cs, Simple c) :
+    (parseFile os (updateFile {} os orc f)).map Entry.skey = (parseFile os f).map Entry.skey :=
+  update_preserves_partial os orc f cs hne hp hrun
+    (parse_write_roundtrip_partial os [] ⟨by simp, by simp⟩ ⟨by simp, by simp⟩ cs hs)
+
+def cSimple : Correction :=
+  { name := ['f', 'i', 'r', 's', 't'], input := ['a', ' ', '=', ' ', '1', ';', '\n', 'b', ';'],
+    output := ['(', 's', ')'], attrsStr := [], hlen := 5, dlen := 3 }
+
+/-- Non-vacuity: a two-line input with punctuation is `Simple`; `|||` is an admissible suffix. -/
+example : Simple cSimple :=
+  { hlen := by decide, dlen := by decide, attrs := rfl, inputCr := by decide
+    name := { noNl := by decide, noDelim := by decide, nonblank := by decide, notMarker := by decide, trimmed := by decide }
+    inputLines := by decide, outputLines := by decide }
+example : SufOK '=' ['|', '|', '|'] ∧ SufOK '-' ['|', '|', '|'] := by decide
+
+/-- Witness for the dropped hypothesis "no `---` line in the input": a longer dash line inside the input
+is taken as the divider when the file is read back, so the input changes. -/
+theorem roundtrip_fails_delimiter_in_input :
+    ¬ RoundTrips [] [] [{ cSimple with input := ['a', '\n', '-', '-', '-', '-', '\n', 'b'] }] := by decide
+
+/-- Witness for the dropped hypothesis "name has no trailing white space". -/
+theorem roundtrip_fails_untrimmed_name :
+    ¬ RoundTrips [] [] [{ cSimple with name := ['f', ' '] }] := by decide
+
+/-! ## formatting and normalising expectations -/
+
+/-
+OPEN: theorem format_normalize (t : a tree printed by `ts_node_string`) :
+    normalizeSexp (trim (formatSexp fx (render t))) = render t
+OPEN: theorem update_idempotent : updateFile fx os orc (updateFile fx os orc f) = updateFile fx os orc f
+Both are decided by the judge on every real case (clauses `format-normalize`, `idempotent`).
+-/
+
+def sxTwoQuoted : Str := "(p (ERROR (UNEXPECTED '?')) (i) (ERROR (UNEXPECTED '?')) (i))".toList
+
+/-- Witness (genuine defect, finding C20-format-sexp-quote-state): with the unchanged `format_sexp` an
+S-expression with two quoted tokens does not survive format → normalize … -/
+theorem format_sexp_quote_state : normalizeSexp (trim (formatSexp {} sxTwoQuoted)) ≠ sxTwoQuoted := by decide
+
+/-- … and does with the proposed repair. -/
+example : normalizeSexp (trim (formatSexp { quoteReset := true } sxTwoQuoted)) = sxTwoQuoted := by decide
 
 /-! ### non-vacuity and witnesses for the dropped hypotheses -/
 
